@@ -88,6 +88,9 @@ class Project:
             return dims | tag["raw_type_code"]
         if self.is_struct(tag["type"]):
             return 0x8000 | dims | (self.udts[tag["type"]]["tid"] & 0x0FFF)
+        if tag["type"] == "BOOL" and not tag["dims"]:
+            # bits 8-10 of a BOOL symbol's type word: the position of the bit in the byte that hosts it in the controller
+            return dims | ATOMIC["BOOL"][0] | ((tag.get("bitpos", 0) & 7) << 8)
         return dims | ATOMIC[tag["type"]][0]
 
     def type_header(self, type_):
